@@ -525,7 +525,7 @@ fn new_acked_packets_reach_on_ack(p1: u8, p3: u8, rx: u8) {
     kani::cover!(true, "reach:end");
 }
 
-//@ harness props=C09,C10 tier=thorough level=bounded timeout=900 bound="two paths: pn 1 sent on path 1, pn 3 on path 0, ACK received on path 0; 2 newly acknowledged packets (1..=1500 bytes), nothing else outstanding; new_largest_packet symbolic"
+//@ harness props=C09,C10 tier=quick level=bounded timeout=900 bound="two paths: pn 1 sent on path 1, pn 3 on path 0, ACK received on path 0; 2 newly acknowledged packets (1..=1500 bytes), nothing else outstanding; new_largest_packet symbolic"
 //@ fn recovery::Manager::process_new_acked_packets
 #[kani::proof]
 #[kani::unwind(12)]
@@ -538,7 +538,7 @@ fn vq_c09_manager_new_acked_two_paths() {
     new_acked_packets_reach_on_ack(1, 0, 0);
 }
 
-//@ harness props=C09 tier=thorough level=bounded timeout=900 bound="pn 1 (1..=1500 bytes) sent on path 0 (RTT 30 ms), ACK processed on path 1 (RTT 300 ms) 100 ms later; concrete times"
+//@ harness props=C09 tier=quick level=bounded timeout=900 bound="pn 1 (1..=1500 bytes) sent on path 0 (RTT 30 ms), ACK processed on path 1 (RTT 300 ms) 100 ms later; concrete times"
 //@ fn recovery::Manager::detect_lost_packets
 #[kani::proof]
 #[kani::unwind(12)]
